@@ -24,13 +24,15 @@ type Prog struct {
 	All   []*packages.Package
 	Funcs []*Func // every FuncDecl and FuncLit with a body in scope packages
 	// lookup tables
-	declOf   map[*types.Func]*Func
-	litOf    map[*ast.FuncLit]*Func
-	graphs   map[*Func]*Graph
-	parentOf map[ast.Node]ast.Node
-	roleOf   map[*Func]string // functions renamed to their canonical role name -> real name
-	GOOS     string
-	GOARCH   string
+	declOf      map[*types.Func]*Func
+	litOf       map[*ast.FuncLit]*Func
+	graphs      map[*Func]*Graph
+	parentOf    map[ast.Node]ast.Node
+	roleOf      map[*Func]string           // functions renamed to their canonical role name -> real name
+	typeCanon   map[*types.TypeName]string // private struct types playing a conventional role -> canonical name
+	typeByCanon map[string]*types.TypeName
+	GOOS        string
+	GOARCH      string
 }
 
 // Func is a function body in scope: a declaration or a function literal.
@@ -95,7 +97,7 @@ func Load(dir, goos, goarch string) (*Prog, error) {
 	}
 	p := &Prog{Dir: dir, Fset: fset, Pkgs: map[string]*packages.Package{}, All: pkgs,
 		declOf: map[*types.Func]*Func{}, litOf: map[*ast.FuncLit]*Func{}, graphs: map[*Func]*Graph{},
-		parentOf: map[ast.Node]ast.Node{}, roleOf: map[*Func]string{}, GOOS: goos, GOARCH: goarch}
+		parentOf: map[ast.Node]ast.Node{}, roleOf: map[*Func]string{}, typeCanon: map[*types.TypeName]string{}, typeByCanon: map[string]*types.TypeName{}, GOOS: goos, GOARCH: goarch}
 	var errs []string
 	for _, pk := range pkgs {
 		for _, e := range pk.Errors {
@@ -118,6 +120,7 @@ func Load(dir, goos, goarch string) (*Prog, error) {
 	if n < 4 {
 		return nil, fmt.Errorf("only %d of the %d scope packages were loaded", n, len(scopePkgs))
 	}
+	p.assignTypeRoles()
 	for _, sp := range scopePkgs {
 		pk := p.Pkgs[sp]
 		for _, f := range pk.Syntax {
@@ -154,7 +157,7 @@ func (p *Prog) indexFile(pk *packages.Package, file *ast.File) {
 		}
 		obj, _ := pk.TypesInfo.Defs[fd.Name].(*types.Func)
 		f := &Func{Pkg: pk, Decl: fd, Obj: obj, Body: fd.Body, Type: fd.Type, File: file}
-		f.Name = funcName(pk, obj)
+		f.Name = p.funcName(pk, obj)
 		p.declOf[obj] = f
 		p.Funcs = append(p.Funcs, f)
 		p.indexLits(pk, file, f, fd.Body)
@@ -200,7 +203,14 @@ func (p *Prog) indexLits(pk *packages.Package, file *ast.File, parent *Func, bod
 	})
 }
 
-func funcName(pk *packages.Package, obj *types.Func) string {
+func (p *Prog) typeName(tn *types.TypeName) string {
+	if c, ok := p.typeCanon[tn]; ok {
+		return c
+	}
+	return tn.Name()
+}
+
+func (p *Prog) funcName(pk *packages.Package, obj *types.Func) string {
 	if obj == nil {
 		return "?"
 	}
@@ -216,7 +226,7 @@ func funcName(pk *packages.Package, obj *types.Func) string {
 			t = pt.Elem()
 		}
 		if nt, ok := t.(*types.Named); ok {
-			return prefix + nt.Obj().Name() + "." + obj.Name()
+			return prefix + p.typeName(nt.Obj()) + "." + obj.Name()
 		}
 	}
 	return prefix + obj.Name()
@@ -373,6 +383,11 @@ func (p *Prog) FieldObj(pkgPath, typeName, field string) *types.Var {
 	}
 	o := pk.Types.Scope().Lookup(typeName)
 	if o == nil {
+		if tn := p.typeByCanon[typeName]; tn != nil && tn.Pkg().Path() == pkgPath {
+			o = tn
+		}
+	}
+	if o == nil {
 		return nil
 	}
 	st, ok := o.Type().Underlying().(*types.Struct)
@@ -424,7 +439,7 @@ func (p *Prog) FieldName(v *types.Var) string {
 					if sp != modPath {
 						pre = filepath.Base(sp) + "."
 					}
-					return pre + n + "." + v.Name()
+					return pre + p.typeName(tn) + "." + v.Name()
 				}
 			}
 		}
